@@ -19,17 +19,7 @@ def safeFix (s : List Char) : List Char := dropDD (strip s)   -- repaired order
 
 theorem safeCur_refuted : hasDD (safeCur "./.".toList) = true := by decide
 
-/-- head of the result is a dot only if … we just need: result never has "..". -/
-theorem dropDD_spec : ∀ (n : Nat) (s : List Char), s.length ≤ n →
-    hasDD (dropDD s) = false ∧
-    (∀ c, (dropDD s).head? = some c → c = '.' → s.head? = some '.' ∨ True) := by
-  intro n s _; constructor
-  · induction n generalizing s with
-    | zero => cases s <;> simp_all [dropDD, hasDD]
-    | succ n ih => sorry
-  · intros; exact Or.inr trivial
-
-/-- cleaner route: characterise when the output starts with '.' -/
+/-- one pass deleting `..` leaves no `..` (strong induction on length) -/
 theorem dropDD_noDD (s : List Char) : hasDD (dropDD s) = false := by
   -- strong induction on length
   generalize hn : s.length = n
